@@ -19,6 +19,7 @@ require (
 	github.com/protolambda/zrnt v0.34.1
 	github.com/protolambda/ztyp v0.2.2
 	github.com/zen-eth/shisui v0.0.0
+	github.com/zen-eth/utp-go v0.0.0-20250517113239-5d962dd66394
 )
 
 require (
@@ -78,7 +79,6 @@ require (
 	github.com/tklauser/go-sysconf v0.3.14 // indirect
 	github.com/tklauser/numcpus v0.9.0 // indirect
 	github.com/valyala/fastrand v1.1.0 // indirect
-	github.com/zen-eth/utp-go v0.0.0-20250517113239-5d962dd66394 // indirect
 	go.uber.org/multierr v1.11.0 // indirect
 	go.uber.org/zap v1.27.0 // indirect
 	golang.org/x/crypto v0.36.0 // indirect
